@@ -106,6 +106,9 @@ def _body(ks, js, vals, nc, nc2):
             calls.append(list(values))
             return len(values)
         kw['apply'] = {'cnt': ('v', rec)}
+        if c.get('apply') == 2:
+            # a second entry on another column with another function: every entry keeps its own column and function
+            kw['apply']['firstpos'] = ('pos', lambda values: values[0])
     f = t.window if win else t.aggregate
     out = f(over=over, **kw)
     if not isinstance(out, Table): return H.fail('returned %r' % (type(out),))
@@ -125,6 +128,8 @@ def _body(ks, js, vals, nc, nc2):
                 want = agg_expected(fn, members)
                 if not close(row[K + p], want): return H.fail('window %s at row %d (key %r, group values %r): %r, expected %r' % (fn, i, keys[i], members, row[K + p], want))
             if c.get('apply') and row[K + len(emitted)] != len(members): return H.fail('window apply at row %d: %r' % (i, row[K + len(emitted)]))
+            if c.get('apply') == 2 and row[K + len(emitted) + 1] != min(j for j in range(n) if keys[j] == keys[i]):
+                return H.fail('window: second apply entry (first row position of the group) at row %d is %r' % (i, row[K + len(emitted) + 1]))
         # agreement with serif's own aggregate, joined back on the key
         agg = t.aggregate(over=over, **{k_: v_ for k_, v_ in kw.items() if k_ != 'apply'})
         arows = H.rows_of(agg)
@@ -141,6 +146,8 @@ def _body(ks, js, vals, nc, nc2):
             for p, fn in enumerate(emitted):
                 want = agg_expected(fn, members)
                 if not close(row[K + p], want): return H.fail('aggregate %s for key %r (group values %r): %r, expected %r' % (fn, k, members, row[K + p], want))
+            if c.get('apply') == 2 and row[K + len(emitted) + 1] != idx[0]:
+                return H.fail('aggregate: second apply entry (first row position of the group) for key %r is %r, expected %r' % (k, row[K + len(emitted) + 1], idx[0]))
     if c.get('apply') and n:
         want_calls = [[vals[j] for j in idx] for _, idx in grp]
         got_calls = calls if not win else calls[:len(grp)]
@@ -148,7 +155,7 @@ def _body(ks, js, vals, nc, nc2):
         for gc, wc in zip(got_calls, want_calls):
             if not H.same_list(gc, wc): return H.fail('apply received %r, expected the group values %r in row order' % (calls, want_calls))
     if n:
-        exp_names = knames + ['v_' + fn for fn in emitted] + (['cnt'] if c.get('apply') else [])
+        exp_names = knames + ['v_' + fn for fn in emitted] + (['cnt'] if c.get('apply') else []) + (['firstpos'] if c.get('apply') == 2 else [])
         if out.column_names() != exp_names: return H.fail('output columns %r, expected %r' % (out.column_names(), exp_names))
     if not H.snap_eq(before, H.snap(t)): return H.fail('input table modified')
     why = H.rect(out) or H.all_truthful(out)
@@ -225,6 +232,28 @@ def h_same_name(k0: int, k1: int, k2: int, k3: int, m0: bool, m1: bool, m2: bool
     return H.ok()
 
 
+def h_agg_keycol(k0: int, k1: int, k2: int, nc: int) -> bool:
+    """
+    pre: H.rgs_ok([k0, k1, k2]) and -1 <= nc <= 2
+    post: _
+    """
+    # the aggregated column IS the partition key column (count / min / max / sum of the key per group; the None group counts 0)
+    H.reset()
+    if H.skip(locals()): return True
+    ks = H.render_keys([k0, k1, k2], 'int', nc)
+    t = Table({'g': ks, 'w': [1, 2, 3]})
+    f = t.window if H.cfg('win') else t.aggregate
+    out = f(over='g', count_over='g', sum_over='g', max_over=t['g'])
+    rows = H.rows_of(out)
+    grp = groups_of([(k,) for k in ks])
+    for i in range(3 if H.cfg('win') else len(grp)):
+        k = ks[i] if H.cfg('win') else grp[i][0][0]
+        members = [x for x in ks if x == k or (x is None and k is None)]
+        want = (k, agg_expected('sum', members), agg_expected('max', members), agg_expected('count', members))
+        if not H.same_list(rows[i], want): return H.fail('aggregating the key column itself: row %r, expected %r (keys %r)' % (rows[i], want, ks))
+    return H.ok()
+
+
 def h_reduce_agree(v0: Optional[int], v1: Optional[int], v2: Optional[int], n: int) -> bool:
     """
     pre: 1 <= n <= 3
@@ -296,6 +325,7 @@ def obligations(tier, win=False, prefix='agg'):
         add('h_agg_int', n, 'min+max,n=%d' % n, fns=['min', 'max'])
     add('h_agg_int', 3, 'all-int+apply,n=3', fns=['sum', 'min', 'max', 'count'], apply=True)
     add('h_agg_int', 2, 'apply,n=2', fns=['count'], apply=True)
+    add('h_agg_int', 3, 'two apply entries,n=3', fns=['sum'], apply=2)
     add('h_agg_int', 3, 'K=2,n=3', K=2, nones=False)
     add('h_agg_int', 2, 'K=2,n=2,nones', K=2)
     for sp in ('col', 'ext'):
@@ -314,6 +344,8 @@ def obligations(tier, win=False, prefix='agg'):
         if n >= 2:
             add('h_agg_float', n, 'mean+stdev,n=%d,large offset' % n, fns=['mean', 'stdev'], witness=[100000001.0, 100000002.0, 100000004.0, 100000008.0])
     add('h_agg_float', 3, 'mean+stdev,K=2,n=3', K=2, nones=False, fns=['mean', 'stdev'], witness=W)
+    obs.append(dict(name='%s[aggregates of the key column itself]' % prefix, fn='h_agg_keycol', config={'win': win}, budget=90 if q else 300,
+                    bounds='3 rows, every key pattern incl. a None class; count / sum / max taken over the partition key column itself', smoke=[[0, 1, 0, 1], [0, 0, 1, -1]]))
     obs.append(dict(name='%s[two value columns, same / missing names]' % prefix, fn='h_same_name', config={'win': win}, budget=120 if q else 300,
                     bounds='4 rows, every key pattern x None mask; two different value columns carrying the same name, no name, or different names, each aggregated twice',
                     smoke=[[0, 1, 0, 1, False, True, False, False, 0]]))
